@@ -8,6 +8,7 @@ package parser
 // ---- source errors (C07) ------------------------------------------------------------
 // A *sourceLocError is written only while private to the function that allocates it.
 //@ immutable parser.sourceLocError
+//@ typeinv parser.sourceLocError: true
 
 //@ interface parser.Error
 //@ method Cause pure
